@@ -1,4 +1,5 @@
 import AlgoVerif.Proofs.C19Top
+import AlgoVerif.Proofs.C19Pos
 /-!
 # C19 — property theorems (statements only live here; helper lemmas in `Proofs/C19*.lean`)
 
@@ -17,8 +18,12 @@ the UTF-8 decoder is exact (`C19_utf8_decode_correct`), `Next` until end of inpu
 (`C19_next_delivers_source_partial`), any interleaving of Next/Retract/Lexeme/Skip within the precondition returns
 exactly what the Spec returns, nothing panics or hangs (`C19_lexemes_concat_partial`), positions are offset/line/
 column of the first rune of each lexeme (`C19_positions_correct_partial`), ill-formed UTF-8 is reported
-(`C19_invalid_utf8_reported_partial`).  The two gaps are the known findings C19-NUL and C19-TRUNC; for each a
-kernel-checked counterexample on the Model stands next to the `_partial` theorem.
+(`C19_invalid_utf8_reported_partial`) with the offset, line and column of the first byte of the ill-formed sequence
+and the text `file:line:column: invalid utf-8 character` (`C19_invalid_utf8_position_partial`); what a caller prints
+of a lexeme's position is `file:line:column` of its first rune (`C19_position_string_linecol`,
+`C19_lexeme_position_rendered_partial`; `Model/C19X.lean` transcribes `lexer.Position`, `lexer.Token` and
+`(*InputError).Error`, the file name being the argument of `New`).  The two gaps are the known findings C19-NUL and
+C19-TRUNC; for each a kernel-checked counterexample on the Model stands next to the `_partial` theorem.
 
 Proof: buffer invariant `Inv` (which bytes the two halves hold, what `forward`, `err`, `ahead` mean), preserved
 by `next()` for every reader behaviour (`Proofs/C19Reader`, `C19Buf`); `Next` = the table-driven decoder on the
@@ -221,3 +226,116 @@ set_option maxRecDepth 100000 in
 example :
     runNew { rest := [0x61, 0xc3, 0x62] } 8 [.next, .next]
       = .ran [.ok (.rune 97), .ok (.invalid ⟨1, 1, 2⟩)] := by decide
+
+/-! ## 6. positions and errors as the caller sees them (`Position.String`, `(*InputError).Error`) -/
+
+/-- `Position.String` (lexer.go) of the position of the rune that follows ANY list of runes `cs`, in an `Input`
+made by `New(filename, …)`: line (1 + newlines in `cs`) and column (1 + runes since the last newline) are both
+positive, so the rendering is always `line:column` — after `filename:` when there is a file name — and never the bare
+offset.  By `C19_positions_correct_partial` these are the positions `Lexeme` and `Skip` return. -/
+theorem C19_position_string_linecol (filename : String) (cs : List Char) :
+    ((Spec.posAfter cs).at filename).String =
+      (if filename = "" then "" else filename ++ ":") ++
+        toString (Spec.advance (1, 1) cs).1 ++ ":" ++ toString (Spec.advance (1, 1) cs).2 :=
+  String_at_posAfter filename cs
+
+/-- non-vacuity: after `"ab\ncd\n\né"`, with and without a file name; and the other branch of `Position.String`
+(line or column not positive: the offset), `Equal` on positions differing in exactly one field, `IsZero`. -/
+example :
+    ((Spec.posAfter "ab\ncd\n\né".toList).at "dir/a.src").String = "dir/a.src:4:2" ∧
+    ((Spec.posAfter "ab\ncd\n\né".toList).at "").String = "4:2" ∧
+    [(⟨"f", 7, 0, 3⟩ : Position).String, (⟨"", 7, 2, 0⟩ : Position).String, (⟨"", -7, -1, -1⟩ : Position).String]
+      = ["f:7", "7", "-7"] ∧
+    [Position.Equal ⟨"f", 7, 2, 3⟩ ⟨"f", 7, 2, 3⟩, Position.Equal ⟨"f", 7, 2, 3⟩ ⟨"g", 7, 2, 3⟩,
+     Position.Equal ⟨"f", 7, 2, 3⟩ ⟨"f", 8, 2, 3⟩, Position.Equal ⟨"f", 7, 2, 3⟩ ⟨"f", 7, 1, 3⟩,
+     Position.Equal ⟨"f", 7, 2, 3⟩ ⟨"f", 7, 2, 4⟩] = [true, false, false, false, false] ∧
+    [Position.IsZero {}, Position.IsZero ⟨"f", 0, 0, 0⟩, Position.IsZero ⟨"", 1, 0, 0⟩, Position.IsZero ⟨"", 0, 1, 0⟩,
+     Position.IsZero ⟨"", 0, 0, 1⟩] = [true, false, false, false, false] := by
+  decide
+
+/-
+Full statement (false of the code, known finding C19-NUL): as below without `hnul`.
+Missing: sources that contain U+0000 (see section 2).
+-/
+/-- Under the hypotheses of section 4, for an `Input` made by `New(filename, …)`: the position returned by the
+`Lexeme` (or `Skip`) that follows a call sequence `ops`, printed by `Position.String`, reads `filename:line:column`
+(`line:column` without a file name) with the line and the column of the first rune of the lexeme — the rune that
+follows `flushed` in the source `flushed ++ pending ++ rest`. -/
+theorem C19_lexeme_position_rendered_partial (filename : String) (cs : List Char) (hnul : ∀ c ∈ cs, c.toNat ≠ 0)
+    (hne : cs ≠ []) (n : Nat) (hn : 0 < n) (script : List Answer) (tailEof : Bool)
+    (hio : ∀ a ∈ script, a.flag ≠ .ioerr) (ops : List Op) (last : Op) (hlast : last = .lexeme ∨ last = .skip)
+    (hkeep : Spec.Keeps n (Spec.init cs) (ops ++ [last])) :
+    let st := Spec.final (Spec.init cs) ops
+    ∃ o, runNew ⟨Spec.encode cs, script, tailEof⟩ n (ops ++ [last]) =
+          .ran ((Spec.run (Spec.init cs) ops).map .ok ++ [.ok o]) ∧
+      (o.position filename).map Position.String =
+        some ((if filename = "" then "" else filename ++ ":") ++
+          toString (Spec.advance (1, 1) st.flushed).1 ++ ":" ++ toString (Spec.advance (1, 1) st.flushed).2) := by
+  intro st
+  have h := (C19_positions_correct_partial cs hnul hne n hn script tailEof hio ops last hlast hkeep).2
+  refine ⟨_, h, ?_⟩
+  rcases hlast with hl | hl <;> subst hl <;>
+    simp [Out.position, st, String_at_posAfter, filePrefix]
+
+set_option maxRecDepth 100000 in
+/-- non-vacuity: `"ab\ncé"` read through a one-byte reader with buffer size 3, file name `a.src`: the lexeme `cé`
+starts at `a.src:2:1`. -/
+example :
+    Spec.Keeps 3 (Spec.init "ab\ncé".toList) [.next, .next, .next, .skip, .next, .next, .lexeme] ∧
+    (match runNew ⟨Spec.encode "ab\ncé".toList, List.replicate 9 { cap := 1 }, false⟩ 3
+        [.next, .next, .next, .skip, .next, .next, .lexeme] with
+      | .ran outs => outs.map fun o => match o with
+          | .ok o => (o.position "a.src").map Position.String
+          | _ => none
+      | _ => [])
+      = [none, none, none, some "a.src:1:1", none, none, some "a.src:2:1"] := by
+  decide
+
+/-
+Full statement (false of the code, known findings C19-NUL and C19-TRUNC): as below without `hnul` and with the weaker
+hypothesis "`tail` does not start with the encoding of a scalar value" instead of `hbad`.  Missing: sources with
+U+0000 (section 2) and a `tail` that is an admissible but incomplete sequence (section 5): `Next` then returns
+`io.EOF`, which carries no position at all.
+-/
+/-- Where the error points.  A source made of well-formed runes `cs` followed by bytes `tail` on which the decoder
+fails (as in section 5), an `Input` made by `New(filename, …)`, and ANY call sequence `ops` of
+Next/Retract/Lexeme/Skip within the precondition that has not run into the ill-formed sequence yet (`hclean`) and
+after which all of `cs` has been read (`hall`; e.g. `Next` × number of runes, with `Lexeme`s, `Skip`s and
+retract-and-reread anywhere in between).  Then the next `Next` returns the `*InputError` whose position is
+`Spec.posAfter cs`: the number of runes, the line and the column of the FIRST byte of the ill-formed sequence
+(not of the byte at which the decoder gave up), whatever the buffer size and the reader; and its `Error()` text is
+`filename:line:column: invalid utf-8 character` (`line:column: …` without a file name). -/
+theorem C19_invalid_utf8_position_partial (filename : String) (cs : List Char) (tail : List UInt8) (k : Nat)
+    (hbad : decodeRune tail = .invalid k) (hnul : ∀ b ∈ Spec.encode cs ++ tail, b ≠ 0)
+    (n : Nat) (hn : 0 < n) (script : List Answer) (tailEof : Bool) (hio : ∀ a ∈ script, a.flag ≠ .ioerr)
+    (ops : List Op) (hkeep : Spec.Keeps n (Spec.initT cs tail) (ops ++ [.next]))
+    (hclean : ∀ o ∈ Spec.run (Spec.initT cs tail) ops, o.isInvalid = false)
+    (hall : (Spec.final (Spec.initT cs tail) ops).rest = []) :
+    runNew ⟨Spec.encode cs ++ tail, script, tailEof⟩ n (ops ++ [.next]) =
+      .ran ((Spec.run (Spec.initT cs tail) ops).map .ok ++ [.ok (.invalid (Spec.posAfter cs))]) ∧
+    (Out.invalid (Spec.posAfter cs)).errorText filename =
+      some ((if filename = "" then "" else filename ++ ":") ++
+        toString (Spec.advance (1, 1) cs).1 ++ ":" ++ toString (Spec.advance (1, 1) cs).2 ++
+        ": invalid utf-8 character") := by
+  refine ⟨invalid_position cs tail k hbad hnul n hn script tailEof hio ops hkeep hclean hall, ?_⟩
+  simp only [Out.errorText, Pos.invalidError, InputError.Error, invalidUtf8, String_at_posAfter, filePrefix]
+  rw [String.append_assoc (s₂ := ": ") (s₃ := "invalid utf-8 character")]
+  have : ": " ++ "invalid utf-8 character" = ": invalid utf-8 character" := by decide
+  rw [this]
+
+set_option maxRecDepth 100000 in
+/-- non-vacuity: `"a\nb"` followed by the surrogate encoding `ED A0 80` (the decoder gives up at its second byte),
+buffer size 2, one-byte reader, the calls next next lexeme next retract next skip: hypotheses hold, and the error
+reads `a.src:2:2: invalid utf-8 character`. -/
+example :
+    decodeRune [0xed, 0xa0, 0x80] = .invalid 2 ∧
+    Spec.Keeps 2 (Spec.initT "a\nb".toList [0xed, 0xa0, 0x80]) ([.next, .next, .lexeme, .next, .retract, .next, .skip] ++ [.next]) ∧
+    (∀ o ∈ Spec.run (Spec.initT "a\nb".toList [0xed, 0xa0, 0x80]) [.next, .next, .lexeme, .next, .retract, .next, .skip],
+      o.isInvalid = false) ∧
+    (Spec.final (Spec.initT "a\nb".toList [0xed, 0xa0, 0x80]) [.next, .next, .lexeme, .next, .retract, .next, .skip]).rest = [] ∧
+    runNew ⟨[0x61, 0x0a, 0x62, 0xed, 0xa0, 0x80], List.replicate 8 { cap := 1 }, false⟩ 2
+        [.next, .next, .lexeme, .next, .retract, .next, .skip, .next]
+      = .ran [.ok (.rune 97), .ok (.rune 10), .ok (.lexeme [0x61, 0x0a] ⟨0, 1, 1⟩), .ok (.rune 98), .ok .unit,
+              .ok (.rune 98), .ok (.skipped ⟨2, 2, 1⟩), .ok (.invalid ⟨3, 2, 2⟩)] ∧
+    (Out.invalid ⟨3, 2, 2⟩).errorText "a.src" = some "a.src:2:2: invalid utf-8 character" := by
+  decide
